@@ -350,6 +350,60 @@ func init() {
 			}
 			return Scalar{False}
 		},
+		// visited(s): s has been handed to the Range callback already
+		"visited": func(e *Env, args []ast.Expr) Value {
+			iv, ok := e.eval(args[0]).(Iface)
+			vis, ok2 := e.st.ghost["range.visited"].(Scalar)
+			if !ok || !ok2 {
+				fail("spec: visited(x) outside a Range invariant")
+			}
+			xs, _ := symbolizeIface(iv)
+			return Scalar{SetHas(vis.T, xs.Box)}
+		},
+		// haskey(m, k): presence of key k in map value m
+		"haskey": func(e *Env, args []ast.Expr) Value {
+			mr, ok := e.eval(args[0]).(MapRef)
+			if !ok {
+				fail("spec: haskey(map, key)")
+			}
+			mo := e.st.mapCell(e.st.canon(mr).(MapRef))
+			_, has, err := e.st.mapGet(mo, e.eval(args[1]))
+			if err != nil {
+				fail("spec: haskey: %v", err)
+			}
+			return Scalar{has}
+		},
+		// hadkey(m, k): key k (evaluated now) was present in map m when the function was entered
+		"hadkey": func(e *Env, args []ast.Expr) Value {
+			mr, ok := e.eval(args[0]).(MapRef)
+			if !ok || e.old == nil {
+				fail("spec: hadkey(map, key)")
+			}
+			key := e.eval(args[1])
+			mo := e.old.mapCell(e.old.canon(mr).(MapRef))
+			_, has, err := e.st.mapGet(mo, key)
+			if err != nil {
+				fail("spec: hadkey: %v", err)
+			}
+			return Scalar{has}
+		},
+		// foralls(x, T, body): for all non-nil values x of interface type T
+		"foralls": func(e *Env, args []ast.Expr) Value {
+			id, ok := args[0].(*ast.Ident)
+			ty := e.resolveType(args[1])
+			if !ok || ty == nil || len(args) != 3 {
+				fail("spec: foralls(x, T, body)")
+			}
+			h := Var(e.st.eng.fresh("q."+id.Name), SInt)
+			n := *e
+			n.bound = map[string]Value{}
+			for k, v := range e.bound {
+				n.bound[k] = v
+			}
+			n.bound[id.Name] = e.st.symValue(ty, h)
+			body := n.evalBool(args[2])
+			return Scalar{Forall([]*Term{h}, Implies(Neq(UF("tid", SInt, h), Int(0)), body))}
+		},
 		"lower": func(e *Env, args []ast.Expr) Value { return Scalar{strLower(e.st.norm(e.toTerm(e.eval(args[0]))))} },
 		"chancap": func(e *Env, args []ast.Expr) Value {
 			c, ok := e.eval(args[0]).(Chan)
@@ -419,6 +473,30 @@ func init() {
 		"errnil":  func(e *Env, args []ast.Expr) Value { t, _ := e.st.isNilTerm(e.eval(args[0])); return Scalar{t} },
 	}
 	specHavoc = map[string]func(e *Env, args []ast.Expr){
+		"syncmap": func(e *Env, args []ast.Expr) {
+			mr := specFuncs["syncmap"](e, args).(MapRef)
+			e.st.mapCell(mr)
+			e.fr.havocCell(e.st, mr.H.String(), -1)
+		},
+		"syncmapp": func(e *Env, args []ast.Expr) {
+			mr := specFuncs["syncmapp"](e, args).(MapRef)
+			e.st.mapCell(mr)
+			e.fr.havocCell(e.st, mr.H.String(), -1)
+		},
+		// elems(s): the elements of slice s (its length is kept)
+		"elems": func(e *Env, args []ast.Expr) {
+			sl, ok := e.eval(args[0]).(Slice)
+			if !ok {
+				fail("spec: modifies elems(slice)")
+			}
+			if isNilConst(sl) {
+				return
+			}
+			sl = e.st.canon(sl).(Slice)
+			if _, ok := e.st.arrayCell(sl.Back, sl.Elem); ok {
+				e.fr.havocCell(e.st, sl.Back.String(), -1)
+			}
+		},
 		"chanlen": func(e *Env, args []ast.Expr) {
 			c, ok := e.eval(args[0]).(Chan)
 			if !ok {
